@@ -120,32 +120,35 @@ def main(argv=None):
             continue
         jobs.append((idx, text))
 
+    import threading
+
+    lock = threading.Lock()
+
     def work(job):
         idx, text = job
         rep, ob = obligations[idx]
         r = solve_text(text, ob.clause, budget, both=(tier == "thorough"))
-        if r.status == "unknown" and tier == "quick":
-            # retry once with more fuel and a larger budget before calling anything undischarged
-            try:
-                text2 = obligation_smt2(env, ob, extra_fuel=1)
-            except Exception:
-                text2 = text
-            r2 = solve_text(text2, ob.clause, budget * 3)
-            if r2.status in ("discharged",):
-                r = r2
+        if r.status in ("unknown", "refuted"):
+            # `sat` with partially unfolded spec functions is not a counterexample: unfold further and
+            # give more time before calling anything undischarged
+            for extra in (1, 2):
+                try:
+                    with lock:
+                        text2 = obligation_smt2(env, ob, extra_fuel=extra)
+                except Exception:
+                    break
+                if text2 == text and r.status == "refuted":
+                    break
+                r2 = solve_text(text2, ob.clause, budget * (2 if extra == 1 else 3))
+                if r2.status == "discharged":
+                    r = r2
+                    break
+                if r2.status == "conflict":
+                    r = r2
+                    break
+                text = text2
         return idx, (r.status, r.backend, r.time, r.detail, r.file)
 
-    # SMT generation for the retry touches z3 (not thread safe): pre-generate lazily under a lock
-    import threading
-
-    lock = threading.Lock()
-    _orig = obligation_smt2
-
-    def locked_smt2(*a, **k):
-        with lock:
-            return _orig(*a, **k)
-
-    globals()["obligation_smt2"] = locked_smt2
     with ThreadPoolExecutor(max_workers=8) as ex:
         for idx, res in ex.map(work, jobs):
             results[idx] = res
